@@ -30,6 +30,8 @@ class Never(Exception):
     """no exception of a run is an instance of this class: the model's stand-in for a filter that matches nothing"""
 
 
+SECRET = bytes(range(30, 46))
+_CT = {}
 TYPES = [Exception, ValueError, E1, E2, IOError, E3, E0, EOFError, KeyError]
 
 
@@ -75,8 +77,18 @@ def run(chk):
             frames.append(proto.frame(ids.keep_alive, ids.b_keep_alive(7), thr))
         if thr is not None:
             frames.insert(0, proto.frame(ids.set_compression, proto.varint(thr)))
-        servers = [sim.Server([b''.join(frames)], end='idle'), sim.Server([], end='idle'), sim.Server([], end='idle')]
-        net = sim.Net(servers).install()
+        wire = b''.join(frames)
+        # in some runs the session is encrypted (the encryption request in the clear, everything after it under the cipher);
+        # configurations 24..39 are scripted: an encrypted session whose first handler disconnects and tries to reconnect, refused
+        enc = origin != 'reaction' and (24 <= cfg < 40 or rng.random() < 0.2)
+        if enc:
+            import c10
+            head = c10.build_server(ids, [('enc', '-', b'tokn')])[0][0]
+            if wire not in _CT:
+                _CT[wire] = bytes(run_model([('mc_encrypt', [SECRET, [wire]])])[0][0])
+            wire = head + _CT[wire]
+        servers = [sim.Server([wire], end='idle'), sim.Server([], end='idle'), sim.Server([], end='idle')]
+        net = sim.Net(servers, urandom=SECRET).install()
         log = []
         try:
             fin_mode = rng.choice(['none', 'false', 'ret', 'raise'])
@@ -128,20 +140,38 @@ def run(chk):
             # the first configurations are scripted: two catch-all returning handlers, then the first one registered once more
             # (a third clause at the end of the chain; the first clause still catches)
             scripted = cfg < 24
-            for i in range(2 if scripted else rng.randrange(0, 5)):
+            for i in range(2 if scripted else max(1, rng.randrange(0, 5)) if 24 <= cfg < 40 else rng.randrange(0, 5)):
                 flt = sorted(set(rng.randrange(len(types)) for _ in range(rng.choice([0, 0, 1, 1, 2]))))
                 beh = rng.choice(['ret', 'ret', 'raise', 'raise'])
                 reconn = (not any_reconn[0]) and rng.random() < 0.12
                 any_reconn[0] = any_reconn[0] or reconn
                 raise_cls = rng.choice([E0, E1, E2, E3])
                 early = rng.random() < 0.3
+                # a handler that gives the connection up and tries again at once - and is refused: the refusal is the exception this
+                # handler raises (the documented idiom disconnect(immediate=True); connect() failing at the TCP level)
+                refused = (24 <= cfg < 40 and i == 0) or (not scripted and not reconn and not any_reconn[0] and beh == 'raise' and rng.random() < 0.12)
+                if refused:
+                    beh, reconn, raise_cls = 'raise', False, ConnectionRefusedError
+                    any_reconn[0] = True            # (no other handler of this run connects: a second connect() would raise InvalidState)
+                    if 24 <= cfg < 40:
+                        flt, early = [], True
                 if scripted:
                     flt, beh, reconn, early = ([] if cfg % 3 else [0, 1, 2, 3]), 'ret', False, False
 
-                def h(exc, info, i=i, beh=beh, reconn=reconn, raise_cls=raise_cls):
+                def h(exc, info, i=i, beh=beh, reconn=reconn, raise_cls=raise_cls, refused=refused):
                     log.append(('H', i, num(exc)))
                     if reconn:
                         conn.connect()
+                    if refused:
+                        conn.disconnect(immediate=True)
+                        gone = sim.Server([], refuse=True)
+                        gone.index = 90 + i
+                        net.servers.insert(net.nconn, gone)
+                        try:
+                            conn.connect()
+                        except ConnectionRefusedError as e:
+                            excs[200 + i] = e
+                            raise
                     if beh == 'raise':
                         e = raise_cls('handler %d' % i)
                         excs[200 + i] = e
@@ -149,7 +179,7 @@ def run(chk):
                 # the types as Python's except / isinstance take them: separate arguments, or nested tuples of types; a tuple that
                 # names no type at all matches nothing (it is not the same as giving no types, which catches everything)
                 arg_shape = rng.choice(['flat', 'flat', 'nested', 'empty-tuple'])
-                if scripted:
+                if scripted or refused:
                     arg_shape = 'flat'
                 funcs.append(h)
                 if arg_shape == 'empty-tuple':
